@@ -665,6 +665,7 @@ def r7_interval(ctx):
     is_period = lambda x: peel(x)[0] == 'field' and peel(x)[2] == 'period'
     is_now = lambda x: peel(x)[0] == 'call' and peel(x)[1] == NOW
     n_on = n_late = 0
+    packed_roles = {}
     for path, outcome, decs in fn_paths(ctx, f):
         if outcome != 'return':
             continue
@@ -681,12 +682,21 @@ def r7_interval(ctx):
         v = peel(f.expr_operand_on_path(site.args[1], path, pidx, 'T'))
         strat = None
         args_ok = False
-        if v[0] == 'call' and v[1] == NT and len(v[2]) == 4:
+        if v[0] == 'call' and v[1] == NT and len(v[2]) >= 2:
             nts = [c for c in f.calls() if c.name == NT and c.b in path]
             if nts:
                 k2 = max(k for k, bb in enumerate(path) if bb == nts[-1].b)
                 strat = peel(f.expr_operand_on_path(nts[-1].args[0], path, k2, 'T'))
-            args_ok = is_deadline(v[2][1]) and is_now(v[2][2]) and is_period(v[2][3])
+            # (deadline, now, period) in this order - as three arguments, or packed into a private record whose components they are
+            flat = []
+            for a_ in v[2][1:]:
+                ap = peel(a_)
+                if ap[0] == 'agg' and str(ap[1]).startswith('adt:des::') and len(ap) > 3:
+                    flat += list(ap[2])
+                    packed_roles.update({nm: ('timeout' if is_deadline(c_) else 'now' if is_now(c_) else 'period' if is_period(c_) else None) for nm, c_ in zip(ap[3], ap[2])})
+                else:
+                    flat.append(a_)
+            args_ok = len(flat) == 3 and is_deadline(flat[0]) and is_now(flat[1]) and is_period(flat[2])
         plain = v[0] == 'call' and v[1].endswith('::add') and len(v[2]) == 2 and is_deadline(v[2][0]) and is_period(v[2][1])
         if late is False:
             n_on += 1
@@ -713,7 +723,14 @@ def r7_interval(ctx):
             var = next((a[2] for _, a in path_atoms(fn_, path, decs) if a and a[0] == 'is' and isinstance(a[2], str) and a[2] in ('Burst', 'Delay', 'Skip')), None)
             r = path_ret_resolved(fn_, path)
             r = peel(r) if r is not None else ('unknown',)
-            base_is = lambda name: (lambda x: peel(x)[0] == 'arg' and peel(x)[2] == name)
+            def base_is(name):
+                def t_(x):
+                    x = peel(x)
+                    if x[0] == 'arg' and x[2] == name:
+                        return True
+                    # a component of the packed record argument that carries this role at the call site
+                    return x[0] == 'field' and peel(x[1])[0] == 'arg' and packed_roles.get(x[2]) == name
+                return t_
             if var in ('Burst', 'Delay'):
                 want = 'timeout' if var == 'Burst' else 'now'
                 okp = _policy_row_ok(var, r, base_is('timeout'), base_is('now'), base_is('period'))
